@@ -416,6 +416,34 @@ func (w *World) Step() string {
 	switch x := c.s.(type) {
 	case *svArr:
 		n := uint64(len(x.elems))
+		if r.Chance(3) {
+			// a request that must be rejected and leave no trace: insert beyond the end of a value whose
+			// Storable() would have side effects (a large string, a fresh small container)
+			var v atree.Value
+			var fresh *atree.Array
+			if r.Bool() && w.Opts.LargeVals {
+				v = testutils.NewStringValue(randStr(r, int(atree.MaxInlineArrayElementSize())+20+r.Intn(40)))
+			} else {
+				a, err := atree.NewArray(w.St, w.Addr, w.ti(41))
+				must(err)
+				must(a.Append(testutils.Uint64Value(1)))
+				v, fresh = a, a
+			}
+			err := x.arr.Insert(n+1+uint64(r.Intn(3)), v)
+			var ioe *atree.IndexOutOfBoundsError
+			if err == nil || !asErr(err, &ioe) {
+				w.Fail("C18: insert beyond the end of the array was not rejected with IndexOutOfBoundsError", fmt.Sprint(err))
+			}
+			if fresh != nil {
+				// the container was never attached: it is still the caller's stand-alone value; dispose of it
+				if fresh.Inlined() {
+					w.Fail("C18: a rejected insert inlined the value (its stand-alone slab is gone)", "")
+				}
+				w.dispose(atree.SlabIDStorable(fresh.SlabID()))
+			}
+			w.Rep.Op("arr.insert_rejected")
+			return "arr.insert_rejected"
+		}
 		switch op := r.Pick(40, 15, 25, 2, 1); {
 		case op == 0 || n == 0:
 			i := uint64(0)
